@@ -13,6 +13,7 @@ from .molfile import Atom, Mol
 
 
 _RETAINED = {}
+_PRE = {}
 
 
 def reset_retained():
@@ -172,6 +173,35 @@ def items():
 
         out.append((f"serialize-retained|{name}", op_ser_retained))
         out.append((f"canon-retained|{name}", op_canon_retained))
+    # single library calls on inputs built beforehand (short bodies for deeper schedule exploration); every call gets
+    # its own private copy of the prebuilt input
+    def pre(name, canonical=False):
+        from tucan.canonicalization import canonicalize_molecule
+        from tucan.io import graph_from_molfile_text
+        key = (name, canonical)
+        if key not in _PRE:
+            g = graph_from_molfile_text(texts[name])
+            _PRE[key] = canonicalize_molecule(g) if canonical else g
+        return _PRE[key].copy()
+
+    for name in ("v3:single", "v3:salt", "v3:isoA"):
+        def op_canon_pre(name=name):
+            from tucan.canonicalization import canonicalize_molecule
+            return canonicalize_molecule(pre(name))
+
+        def op_ser_pre(name=name):
+            from tucan.serialization import serialize_molecule
+            return serialize_molecule(pre(name, True))
+
+        def op_write_pre(name=name):
+            from tucan.io import graph_to_molfile
+            lines = graph_to_molfile(pre(name, True)).split("\n")
+            lines[1] = "<timestamp masked>"
+            return "\n".join(lines)
+
+        out.append((f"canon-pre|{name}", op_canon_pre))
+        out.append((f"serialize-pre|{name}", op_ser_pre))
+        out.append((f"write-pre|{name}", op_write_pre))
     for s in TUCAN_STRINGS:
         out.append((f"parse|{s}", (lambda s=s: op_parse(s))))
         out.append((f"norm|{s}", (lambda s=s: op_norm(s))))
